@@ -61,6 +61,15 @@ type kase struct {
 	Reuse bool     `json:"reuse,omitempty"`
 	RPC   rpcSpec  `json:"rpc"`
 	RPC2  *rpcSpec `json:"rpc2,omitempty"` // a second RPC running concurrently on the same channel
+	// Cloner (in-process channel only, cloner.go): how the channel is configured to
+	// copy messages: "" = nothing configured (ProtoCloner) | codec | clonefunc | copyfunc.
+	Cloner string `json:"cloner,omitempty"`
+	// Dest: what a receiver passes as destination: "" = a message pre-filled with
+	// junk (as left by an unrelated earlier call) | fresh = a new, empty message |
+	// reuse = ONE message object per direction for all receives of the RPC, so that
+	// it still holds the previous message of the stream (the msg-shrinking shape:
+	// an earlier, larger one).
+	Dest string `json:"dest,omitempty"`
 	// Cut: the HTTP response is cut (cut.go): the genuine reply of the real server
 	// to this case is replayed to the real client, ending after Cut.Off body bytes.
 	Cut *cutSpec `json:"cut,omitempty"`
@@ -76,6 +85,12 @@ func (k kase) key() string {
 	}
 	if k.Reuse {
 		s += "|reuse"
+	}
+	if k.Cloner != "" {
+		s += "|cloner=" + k.Cloner
+	}
+	if k.Dest != "" {
+		s += "|dest=" + k.Dest
 	}
 	if k.Cut != nil {
 		s += fmt.Sprintf("|cut@%d/%d,%s", k.Cut.Off, k.Cut.Len, k.Cut.Ending)
@@ -135,6 +150,7 @@ type rpcRun struct {
 	abort  chan struct{}  // closed when a client failed or all clients are done
 	tok    [2]chan int    // Reuse: "send i has returned and the object has been overwritten", per direction
 	reused [2]interface{} // Reuse: the sender's one object, per direction
+	rdest  [2]interface{} // Dest=reuse: the receiver's one destination object, per direction
 
 	started [2]int32 // messages handed to a send so far: [0] requests, [1] responses
 
@@ -181,11 +197,41 @@ func (r *rpcRun) want(dir string, idx int) proto.Message {
 	return r.shape.build(variant(r.id, dir, idx))
 }
 
-func (r *rpcRun) dest() interface{} {
+// dest: the destination of the next receive of the direction.
+func (r *rpcRun) dest(dir string) interface{} {
 	if r.fixed != nil {
 		return r.fixed.dest(r)
 	}
+	switch r.k.Dest {
+	case "fresh":
+		return inRep(emptyOf(r.shape), r.k.RecvRep)
+	case "reuse":
+		d := dirIdx(dir)
+		if r.rdest[d] == nil {
+			r.rdest[d] = inRep(emptyOf(r.shape), r.k.RecvRep)
+		}
+		return r.rdest[d]
+	}
 	return inRep(junk(r.shape.Type), r.k.RecvRep)
+}
+
+func emptyOf(s *shape) proto.Message {
+	return s.build(0).ProtoReflect().New().Interface()
+}
+
+// before: what the destination of receive number idx of the direction held
+// when it was passed to the library (in generated form).
+func (r *rpcRun) before(dir string, idx int) proto.Message {
+	switch r.k.Dest {
+	case "fresh":
+		return emptyOf(r.shape)
+	case "reuse":
+		if idx == 0 {
+			return emptyOf(r.shape)
+		}
+		return r.want(dir, idx-1)
+	}
+	return junk(r.shape.Type)
 }
 
 func (r *rpcRun) expectedCount(dir string) int {
@@ -205,6 +251,9 @@ func (r *rpcRun) onRecv(dir string, got interface{}) {
 	if err != nil {
 		r.add("unreadable", dir, fmt.Sprintf("message #%d obtained by the receiver cannot be read back: %v", idx, err))
 		g = nil
+	}
+	if g != nil && r.k.Dest == "reuse" {
+		g = proto.Clone(g) // the object is passed to the next receive too
 	}
 	r.mu.Lock()
 	r.recvd[d] = append(r.recvd[d], g)
@@ -247,11 +296,11 @@ func (r *rpcRun) onRecv(dir string, got interface{}) {
 		}
 	}
 	if clause == "corrupted" {
-		merged := proto.Clone(junk(r.shape.Type))
+		merged := proto.Clone(r.before(dir, idx))
 		proto.Merge(merged, want)
 		if proto.Equal(g, merged) {
 			clause, detail = "merged-into-destination", "it is the sent message merged into the previous content of the receive destination (the destination was not overwritten)"
-		} else if proto.Equal(g, junk(r.shape.Type)) {
+		} else if proto.Equal(g, r.before(dir, idx)) {
 			clause, detail = "destination-untouched", "the receive destination still holds its previous content"
 		}
 	}
@@ -307,7 +356,7 @@ func (r *rpcRun) unaryHandler(ctx context.Context, dec func(interface{}) error) 
 	}()
 	defer r.guard("the unary handler (request decoding)", &err)
 	r.b1.wait()
-	d := r.dest()
+	d := r.dest("req")
 	if err := dec(d); err != nil {
 		return nil, err
 	}
@@ -335,7 +384,7 @@ func (r *rpcRun) streamHandler(ss grpc.ServerStream) (err error) {
 	if clientStreams(r.spec.Kind) {
 		for i := 0; ; i++ {
 			r.awaitSent("req", i, r.abort)
-			d := r.dest()
+			d := r.dest("req")
 			err := ss.RecvMsg(d)
 			if err == io.EOF {
 				break
@@ -347,7 +396,7 @@ func (r *rpcRun) streamHandler(ss grpc.ServerStream) (err error) {
 		}
 	} else {
 		r.awaitSent("req", 0, r.abort)
-		d := r.dest()
+		d := r.dest("req")
 		if err := ss.RecvMsg(d); err != nil {
 			return err
 		}
@@ -382,7 +431,7 @@ func (r *rpcRun) client(cc grpc.ClientConnInterface, method string) {
 	defer cancel()
 	if r.spec.Kind == "unary" {
 		atomic.AddInt32(&r.started[0], 1)
-		d := r.dest()
+		d := r.dest("resp")
 		if err := cc.Invoke(ctx, method, r.build("req", 0), d); err != nil {
 			r.cliErr = err
 			return
@@ -521,7 +570,7 @@ func overwrite(obj interface{}, next proto.Message) {
 func (r *rpcRun) receive(cs grpc.ClientStream) {
 	if !serverStreams(r.spec.Kind) {
 		r.awaitSent("resp", 0, r.srvDone)
-		d := r.dest()
+		d := r.dest("resp")
 		if err := cs.RecvMsg(d); err != nil {
 			r.cliErr = err
 			return
@@ -531,7 +580,7 @@ func (r *rpcRun) receive(cs grpc.ClientStream) {
 	}
 	for j := 0; ; j++ {
 		r.awaitSent("resp", j, r.srvDone)
-		d := r.dest()
+		d := r.dest("resp")
 		err := cs.RecvMsg(d)
 		if err == io.EOF {
 			return
@@ -557,10 +606,20 @@ type env struct {
 	close func()
 }
 
-func setup(transport string, svc *common.Svc, wrap func(http.RoundTripper) http.RoundTripper) (env, error) {
+func setup(transport, cloner string, svc *common.Svc, wrap func(http.RoundTripper) http.RoundTripper) (env, error) {
+	if cloner != "" && transport != "inproc" {
+		return env{}, fmt.Errorf("cloner %q: only the in-process channel has a cloner", cloner)
+	}
 	switch transport {
 	case "inproc":
 		ch := &inprocgrpc.Channel{}
+		if cloner != "" {
+			c, err := clonerFor(cloner)
+			if err != nil {
+				return env{}, err
+			}
+			ch.WithCloner(c)
+		}
 		ch.RegisterService(svc.Desc(), common.Impl{})
 		return env{cc: ch, close: func() {}}, nil
 	case "http":
@@ -664,7 +723,7 @@ func runCaseWrap(k kase, wrap func(http.RoundTripper) http.RoundTripper) (o outc
 		}
 		svc.Streams[name] = sd
 	}
-	e, err := setup(k.Transport, svc, wrap)
+	e, err := setup(k.Transport, k.Cloner, svc, wrap)
 	if err != nil {
 		o.Internal = "transport setup: " + err.Error()
 		return
